@@ -107,7 +107,7 @@ JUNK = ['', ' ', 'é 1', '1 é', 'latest', 'abc', '1.2.3.4', '>>1', '^^1.2.3', '
         '1.x.x', '*', '* 1', '1.*', '~>1.2', '1.2.3 ||| 2', 'workspace:*', 'file:../x', 'npm:foo@1', 'git+https://x', ',', '1,', ',1', '1, 2', '>=1, <2',
         '+1.2.3', '1.+2.3', 'v1', 'V1', 'v1.2', 'v1.2.3-beta', 'v1.2.3-beta+b', 'v0.0.0-20210101000000-abcdefabcdef', 'v1.2.4-0.20210101000000-abcdefabcdef',
         'v1.2.3-beta.0.20210101000000-abcdefabcdef', 'v2.0.0+incompatible', '2.0.0+incompatible', 'v-20210101000000-x', '-', 'v1-', 'main', 'release/v1', '1.2.3.4.5',
-        'abcdef0123456789abcdef0123456789abcdef01', 'v1.-2', '1..2']
+        'abcdef0123456789abcdef0123456789abcdef01', 'v1.-2', '1..2', 'v1.2.3.4', 'v4.1.0.final', 'V1.2.3.4-rc.1', 'v1.2.3.4.5.6']
 RAW_VERSIONS = ['1.2.3', '1.0.0', '0.0.0', '2.0.0', '1.2.3-beta', '1.2.4', 'v1.2.3', 'v1', 'v2.0.0+incompatible', '2.0.0', 'x', '', '1.2', '1', '1.2.3+b',
                 'v0.0.0-20210101000000-abcdefabcdef', 'v1.2.4-0.20210101000000-abcdefabcdef', '1.2.3-beta+b', 'v1.2.3-beta', '18446744073709551615.0.0', '01.2.3', 'é']
 ECO_CODE = {'npm': 0, 'crates': 1, 'go': 2, 'gha': 3}
@@ -405,7 +405,7 @@ def run(tier, seed):
                 rep.cov['streams'][other] = {'cases': len(cs), 'compared_with': 'npm'}
     seeds = ['^1.2.3', '>=1.0.0 <2.0.0', '1.0.0 - 2.0.0', '^1 || ^2', '~1.2', '1.x', '>=1.2.3, <2', 'v1.2.3', 'v4', 'v2.0.0+incompatible']
     st = raw_stream(rep, rnd, 300 if quick else 6000, seeds)
-    eval_stream(rep, st, [('corr', 'raw_corr', True)], proofs_ok)
+    eval_stream(rep, st, [('corr', 'raw_corr', True), ('oracle', 'gha_ref_oracle', False)], proofs_ok)
     total += sum(len(i['versions']) for i in st.inputs)
     nontrivial += len({(i['eco'], i['spec']) for i in st.inputs})
     rep.cov['samples'].append({'stream': 'raw', 'input': st.inputs[3], 'impl': st.outs[3]})
